@@ -2,8 +2,13 @@
 
 package simrt
 
+import "unsafe"
+
 // RaceEnabled reports whether the binary was built with -race.
 const RaceEnabled = false
 
 // RaceErrors is always 0 without the race detector.
 func RaceErrors() int { return 0 }
+
+func raceAcquire(p unsafe.Pointer)      {}
+func raceReleaseMerge(p unsafe.Pointer) {}
